@@ -2761,6 +2761,11 @@ pub fn encode_with_bug(s: &SpriteSpec, opts: &EncOpts, bug: Option<&str>, r: &mu
                 let mut ins = Vec::new();
                 ins.extend_from_slice(&(if lie { 0xFFFF_FFFFu32 } else { n as u32 }).to_le_bytes());
                 ins.extend(std::iter::repeat(0xABu8).take(n));
+                if n >= 4 {
+                    // a real ICC profile begins with its own size, big-endian
+                    let k = ins.len() - n;
+                    ins[k..k + 4].copy_from_slice(&(n as u32).to_be_bytes());
+                }
                 let at = c.off + c.size;
                 let (fstart, _) = m.frames[c.frame];
                 let tail = bytes.split_off(at);
